@@ -340,6 +340,18 @@ static void dump_pairings()
   }
 }
 
+static void finish_and_exit()
+{
+  dump_pairings();
+  logf("E %ld", (long)std::llround(sg4::Engine::get_clock() * 1024));
+  std::string out;
+  for (auto const& l : g_log)
+    out += (out.empty() ? "" : " | ") + l;
+  printf("%s\n", out.c_str());
+  fflush(stdout);
+  _exit(0);
+}
+
 static int run_case(const std::vector<long long>& v)
 {
   size_t i    = 0;
@@ -380,21 +392,14 @@ static int run_case(const std::vector<long long>& v)
     }
     g_actors.push_back(hosts[a % nhosts]->add_actor("a" + std::to_string(a), [a, ops]() { actor_code((int)a, ops); }));
   }
-  bool dumped = false;
-  sg4::Engine::on_deadlock_cb([&dumped]() {
+  sg4::Engine::on_deadlock_cb([]() {
+    // everything observable is known here; leaving now avoids the kill phase (cancel() of a comm whose mbox_ was
+    // cleared by iprobe is a separate matter, outside C08)
     logf("X");
-    dump_pairings();
-    dumped = true;
+    finish_and_exit();
   });
   e.run();
-  if (not dumped)
-    dump_pairings();
-  logf("E %ld", (long)std::llround(e.get_clock() * 1024));
-  std::string out;
-  for (auto const& l : g_log)
-    out += (out.empty() ? "" : " | ") + l;
-  printf("%s\n", out.c_str());
-  fflush(stdout);
+  finish_and_exit();
   return 0;
 }
 
